@@ -712,6 +712,13 @@ def model_expect(drv, site, cfg, U, bound):
     elif site in ('IPTW.missing_model', 'GEstimationSNM.missing_model'):
         obs = U['aux']['obs']
         rep, _ = drv.ask('bw', kind='ipmw', n=fl(U['aux']['n_ref'][obs]), d=fl(U['aux']['d_ref'][obs]), **base)
+        if rep['status'] == 'ok' and site == 'GEstimationSNM.missing_model':
+            # the per-row lines regenerated from GEstimationSNM.missing_model (Gen/Sites.lean) on the same raw
+            # probabilities: identical to the hand-written use-site model (Props/C17_Sites.snm_missing_generated)
+            g, _ = drv.ask('site', kind='snmmiss', stab=int(cfg['stab']), obs=bl(np.ones(int(obs.sum()))),
+                           n=fl(U['aux']['n_ref'][obs]), d=fl(U['aux']['d_ref'][obs]), **base)
+            if g.get('w') != rep['w']:
+                return dict(g, status='err generated call site differs from the use-site model'), {}
         if rep['status'] == 'ok':
             w = np.full(len(obs), np.nan)
             w[obs] = dec_list(rep['w'], unfx)
@@ -737,6 +744,13 @@ def model_expect(drv, site, cfg, U, bound):
         n = U['p']['numer'] if cfg['stab'] else np.ones(len(U['p']['denom']))
         rep, _ = drv.ask('bw', kind='ipsw', gen=int(cfg['gen']), stab=int(cfg['stab']), n=fl(n), d=fl(U['p']['denom']),
                          **base)
+        if rep['status'] == 'ok':
+            # the per-row lines regenerated from IPSW.sampling_model (Gen/Sites.lean) on the same raw probabilities:
+            # identical to the hand-written use-site model (Props/C17_Sites.ipsw_sampling_generated)
+            g, _ = drv.ask('site', kind='ipsw', gen=int(cfg['gen']), stab=int(cfg['stab']), n=fl(n),
+                           d=fl(U['p']['denom']), **base)
+            if (g.get('d'), g.get('n'), g.get('w')) != (rep['d'], rep['n'], rep['w']):
+                return dict(g, status='err generated call site differs from the use-site model'), {}
         if rep['status'] == 'ok':
             exp = {'p.denom': dec_list(rep['d'], unfx), 'w.ipsw': dec_list(rep['w'], unfx),
                    'aux.numer_col': dec_list(rep['n'], unfx)}
